@@ -45,6 +45,78 @@ type winStep struct {
 	Spec     RespSpec `json:"response"`
 	Classes  []string `json:"classes"`                 // generator's intent per bound (informational)
 	Lattice  int      `json:"lattice_point,omitempty"` // 1 + index of the enumerated lattice point (0: sampled case)
+	Sub      *winSub  `json:"sub_millisecond,omitempty"`
+}
+
+// winSub: the parts of the instants below one millisecond, in nanoseconds (every other field of a step is in whole milliseconds).
+// An instant of the message is t0 + its *_ms + its *_ns and is written with nine fractional digits; the SP clock reads
+// t0 + delay + skew + sp_clock_ns. Absent: everything lies on the millisecond lattice.
+type winSub struct {
+	NowNs  int64      `json:"sp_clock_ns"`
+	RespNs int64      `json:"resp_issue_ns,omitempty"`
+	As     []winSubAs `json:"assertions,omitempty"`
+}
+
+type winSubAs struct {
+	IssueNs int64   `json:"issue_ns,omitempty"`
+	NBNs    int64   `json:"nb_ns,omitempty"`
+	NOANs   int64   `json:"noa_ns,omitempty"`
+	ConfNs  []int64 `json:"conf_noa_ns,omitempty"`
+}
+
+func (s *winSub) now() int64 {
+	if s == nil {
+		return 0
+	}
+	return s.NowNs
+}
+
+func (s *winSub) resp() int64 {
+	if s == nil {
+		return 0
+	}
+	return s.RespNs
+}
+
+func (s *winSub) as(j int) winSubAs {
+	if s == nil || j >= len(s.As) {
+		return winSubAs{}
+	}
+	return s.As[j]
+}
+
+func (a winSubAs) conf(q int) int64 {
+	if q >= len(a.ConfNs) {
+		return 0
+	}
+	return a.ConfNs[q]
+}
+
+// roundNs: ns (|ns| < 1 ms, never exactly half) to the nearest whole millisecond, in ns.
+func roundNs(ns int64) int64 {
+	switch {
+	case ns > 500_000:
+		return 1_000_000
+	case ns < -500_000:
+		return -1_000_000
+	}
+	return 0
+}
+
+// rounded: the same step with every instant of the message moved to the nearest millisecond (the SP clock is left as it is).
+func (s *winSub) rounded() *winSub {
+	if s == nil {
+		return nil
+	}
+	r := &winSub{NowNs: s.NowNs, RespNs: roundNs(s.RespNs)}
+	for _, a := range s.As {
+		ra := winSubAs{IssueNs: roundNs(a.IssueNs), NBNs: roundNs(a.NBNs), NOANs: roundNs(a.NOANs)}
+		for _, c := range a.ConfNs {
+			ra.ConfNs = append(ra.ConfNs, roundNs(c))
+		}
+		r.As = append(r.As, ra)
+	}
+	return r
 }
 
 const (
@@ -81,6 +153,23 @@ func drawMargin(g *Rng, tol int64) (int64, string) {
 	}
 }
 
+// otherACS: assertion consumer endpoints of other relying parties the IdP serves (an IdP that fans an assertion out issues one
+// confirmation per Recipient).
+var otherACS = []string{"https://other.example.net/saml/acs", spBase + "/saml/acs2", "https://sp.example.com:8443/saml/acs"}
+
+// drawTimeForm draws the lexical form of every instant of one message: one of the seven fixed forms, or (one in four) the instants
+// written in a zone drawn from the whole range xs:dateTime admits (-14:00 ... +14:00, quarter hours), biased towards the zones in use
+// at both ends of the range (+12:45/+13:45 Chatham, +13:00 Tonga/NZDT, +14:00 Line Islands, -12:00 Baker Island).
+func drawTimeForm(g *Rng) int {
+	if !g.Bool(0.25) {
+		return g.Intn(7)
+	}
+	if g.Bool(0.5) {
+		return zoneFormBase + Pick(g, 13*60, 14*60, 12*60+45, 13*60+45, 12*60, -12*60, -14*60, -(13*60+30), 5*60+45)
+	}
+	return zoneFormBase + 15*(g.Intn(113)-56)
+}
+
 // latticeClasses: the four positions the property's quantifier names per instant.
 var latticeClasses = []string{"far-in", "in+1ms", "out-1ms", "far-out"}
 
@@ -114,7 +203,7 @@ func genLattice(g *Rng, idx uint64) *Plan {
 	x := st.DelayMs + st.SkewMs
 	mid, mcs := k.MaxIssueDelayMs, k.MaxClockSkewMs
 	digit := func(i int) string { return latticeClasses[(idx>>(2*uint(i)))&3] }
-	spec := RespSpec{ID: "id-resp-0", Issuer: sp(idpEntity), Destination: spBase + "/saml/acs", InResponseTo: "id-req", Status: saml.StatusSuccess, TimeForm: g.Intn(7)}
+	spec := RespSpec{ID: "id-resp-0", Issuer: sp(idpEntity), Destination: spBase + "/saml/acs", InResponseTo: "id-req", Status: saml.StatusSuccess, TimeForm: drawTimeForm(g)}
 	spec.IssueMs = x + latticeMargin(digit(0)) - mid
 	layout := g.Intn(3)
 	spec.Sign = layout != 1
@@ -131,6 +220,10 @@ func genLattice(g *Rng, idx uint64) *Plan {
 		if g.Bool(0.2) {
 			a.Confs[ci].NotBefore = i64(-86_400_000)
 		}
+	}
+	if g.Bool(0.15) {
+		// one of the two confirmations is addressed to another relying party: its NotOnOrAfter binds all the same
+		a.Confs[g.Intn(2)].Recipient = Pick(g, otherACS...)
 	}
 	st.Classes = []string{"resp-issue:" + digit(0), "as0-issue:" + digit(1), "as0-nb:" + digit(2), "as0-noa:" + digit(3), "as0-conf0:" + digit(4), "as0-conf1:" + digit(5)}
 	spec.Assertions = []AsrtSpec{a}
@@ -194,6 +287,7 @@ func genWindows(g *Rng, tier string) *Plan {
 		ReqIDHook:       g.Bool(0.15),
 	}
 	p := &Plan{Knobs: mustJSON(k)}
+	subMs := g.Bool(0.1) // one sampled run in ten (5% of all runs): instants and SP clock off the millisecond lattice
 	n := 1 + g.PickW(6, 3, 1)
 	for i := 0; i < n; i++ {
 		st := winStep{Kind: "deliver", Entry: Pick(g, "xml", "xml", "post", "artifact", "artifact-http")}
@@ -205,7 +299,7 @@ func genWindows(g *Rng, tier string) *Plan {
 		x := st.DelayMs + st.BackMs + st.SkewMs // SP-now (when the response is examined) minus t0
 		mid, mcs := k.MaxIssueDelayMs, k.MaxClockSkewMs
 		spec := RespSpec{ID: fmt.Sprintf("id-resp-%d", i), Issuer: sp(idpEntity), Destination: spBase + "/saml/acs",
-			InResponseTo: "id-req", Status: saml.StatusSuccess, TimeForm: g.Intn(7)}
+			InResponseTo: "id-req", Status: saml.StatusSuccess, TimeForm: drawTimeForm(g)}
 		m, c := drawMargin(g, mid)
 		spec.IssueMs = x + m - mid
 		if c == "far-out" && g.Bool(0.5) {
@@ -265,6 +359,9 @@ func genWindows(g *Rng, tier string) *Plan {
 					cf.NotBefore = i64(-86_400_000)
 					cf.Address = Pick(g, "", "192.0.2.7")
 				}
+				if nc > 1 && g.Bool(0.12) {
+					cf.Recipient = Pick(g, otherACS...)
+				}
 				a.Confs = append(a.Confs, cf)
 				st.Classes = append(st.Classes, fmt.Sprintf("as%d-conf%d:%s", j, q, c))
 			}
@@ -297,9 +394,74 @@ func genWindows(g *Rng, tier string) *Plan {
 			}
 		}
 		st.Spec = spec
+		if subMs {
+			addSubMs(g, &st, k)
+		}
 		p.Steps = append(p.Steps, mustJSON(st))
 	}
 	return p
+}
+
+// drawSubNs: a part below one millisecond, in ns (never exactly half a millisecond: which way a tie goes is nobody's business here).
+func drawSubNs(g *Rng) int64 {
+	switch g.PickW(3, 4, 3) {
+	case 0:
+		return 0
+	case 1:
+		return Pick(g, int64(200_000), 400_000, 600_000, 999_999, 1, -200_000, -400_000, -600_000, -999_999, -1)
+	}
+	n := g.Int63n(1_999_999) - 999_999
+	if n == 500_000 || n == -500_000 {
+		n++
+	}
+	return n
+}
+
+// addSubMs takes one drawn delivery off the millisecond lattice: the SP clock and every instant of the message get a part below one
+// millisecond; usually one bound is first moved onto its boundary (to the millisecond), so that those parts decide.
+func addSubMs(g *Rng, st *winStep, k winKnobs) {
+	x := st.DelayMs + st.BackMs + st.SkewMs
+	mid, mcs := k.MaxIssueDelayMs, k.MaxClockSkewMs
+	st.Spec.TimeForm = Pick(g, 0, 4, 5) // the forms that carry nine fractional digits
+	relabel := func(name string) {
+		for i, c := range st.Classes {
+			if strings.HasPrefix(c, name+":") {
+				st.Classes[i] = name + ":edge"
+			}
+		}
+	}
+	if g.Bool(0.7) {
+		ai := g.Intn(len(st.Spec.Assertions))
+		a := &st.Spec.Assertions[ai]
+		switch w := g.Intn(5); {
+		case w == 0 && st.Spec.IssueText == "":
+			st.Spec.IssueMs = x - mid
+			relabel("resp-issue")
+		case w == 1 && a.IssueText == "":
+			a.IssueMs = x - mid
+			relabel(fmt.Sprintf("as%d-issue", ai))
+		case w == 2 && a.NBText == "":
+			a.NotBefore = i64(x + mcs)
+			relabel(fmt.Sprintf("as%d-nb", ai))
+		case w == 3 && a.NOAText == "":
+			a.NotOnOrAfter = i64(x - mcs)
+			relabel(fmt.Sprintf("as%d-noa", ai))
+		case w == 4:
+			if ci := g.Intn(len(a.Confs)); a.Confs[ci].NOAText == "" {
+				a.Confs[ci].NotOnOrAfter = i64(x - mcs)
+				relabel(fmt.Sprintf("as%d-conf%d", ai, ci))
+			}
+		}
+	}
+	sub := &winSub{NowNs: Pick(g, int64(0), 200_000, 300_000, 700_000, 999_999, g.Int63n(1_000_000)), RespNs: drawSubNs(g)}
+	for _, a := range st.Spec.Assertions {
+		fa := winSubAs{IssueNs: drawSubNs(g), NBNs: drawSubNs(g), NOANs: drawSubNs(g)}
+		for range a.Confs {
+			fa.ConfNs = append(fa.ConfNs, drawSubNs(g))
+		}
+		sub.As = append(sub.As, fa)
+	}
+	st.Sub = sub
 }
 
 type bound struct {
@@ -307,23 +469,131 @@ type bound struct {
 	status int // 0 inside, 1 edge, 2 outside
 }
 
-func upper(now, b, tol int64) int { // reject iff now > b+tol
+func upper(now, b, tol int64) int { return upperNs(now, b, tol, 0) } // reject iff now > b+tol
+
+func lower(now, b, tol int64) int { return lowerNs(now, b, tol, 0) } // reject iff now < b-tol
+
+// upperNs, lowerNs: the same with dns = (sub-millisecond part of now) - (sub-millisecond part of b), |dns| < 3 ms, in ns.
+func upperNs(now, b, tol, dns int64) int {
+	d := now - b - tol
 	switch {
-	case now < b+tol:
+	case d >= 4:
+		return 2
+	case d <= -4:
 		return 0
-	case now == b+tol:
+	}
+	switch d = d*1_000_000 + dns; {
+	case d < 0:
+		return 0
+	case d == 0:
 		return 1
 	}
 	return 2
 }
-func lower(now, b, tol int64) int { // reject iff now < b-tol
+
+func lowerNs(now, b, tol, dns int64) int {
+	d := now - b + tol
 	switch {
-	case now > b-tol:
+	case d >= 4:
 		return 0
-	case now == b-tol:
+	case d <= -4:
+		return 2
+	}
+	switch d = d*1_000_000 + dns; {
+	case d > 0:
+		return 0
+	case d == 0:
 		return 1
 	}
 	return 2
+}
+
+// winJudge: what the statement says about one delivery.
+type winJudge struct {
+	respSt      int
+	asSt        map[string]int
+	expect      string
+	anyInside   bool
+	eodForm     bool // an instant in the 24:00:00 form: a lexical form the parser need not admit, so acceptance of this message is not demanded
+	movedAcross bool // a lower bound that the clock crossed during the call: acceptance is not demanded
+	// a confirmation addressed to another relying party makes its assertion something other than "an otherwise valid" one (acceptance
+	// is not demanded for it); the windows of the statement hold for every confirmation of the assertion returned, whoever it addresses
+	elsewhere, insideButElsewhere, lapsedElsewhere bool
+}
+
+// judgeWindows is the oracle: from the statement, the spec of the message and the clock only (f: sub-millisecond parts, nil = none).
+func judgeWindows(st *winStep, k winKnobs, f *winSub) winJudge {
+	now := st.DelayMs + st.BackMs + st.SkewMs // the SP's clock when the response is examined
+	now0 := st.DelayMs + st.SkewMs            // ... and when the call began (differs only when the back-channel takes time)
+	j := winJudge{asSt: map[string]int{}}
+	j.respSt = upperNs(now, st.Spec.IssueMs, k.MaxIssueDelayMs, f.now()-f.resp())
+	if strings.HasPrefix(st.Entry, "artifact") {
+		j.respSt = worst(j.respSt, upperNs(now, st.ArtIssue, k.MaxIssueDelayMs, f.now()))
+	}
+	allOutside := true
+	for ai, a := range st.Spec.Assertions {
+		fa := f.as(ai)
+		if strings.Contains(a.NBText, "T24:") {
+			j.eodForm = true
+		}
+		s := upperNs(now, a.IssueMs, k.MaxIssueDelayMs, f.now()-fa.IssueNs)
+		s = worst(s, lowerNs(now, *a.NotBefore, k.MaxClockSkewMs, f.now()-fa.NBNs))
+		if lowerNs(now0, *a.NotBefore, k.MaxClockSkewMs, f.now()-fa.NBNs) != 0 {
+			j.movedAcross = true
+		}
+		s = worst(s, upperNs(now, *a.NotOnOrAfter, k.MaxClockSkewMs, f.now()-fa.NOANs))
+		mine := true
+		for ci, c := range a.Confs {
+			cs := upperNs(now, *c.NotOnOrAfter, k.MaxClockSkewMs, f.now()-fa.conf(ci))
+			s = worst(s, cs)
+			if c.Recipient != spBase+"/saml/acs" {
+				mine, j.elsewhere = false, true
+				if cs == 2 {
+					j.lapsedElsewhere = true
+				}
+			}
+		}
+		j.asSt[a.ID] = s
+		if s == 0 && mine {
+			j.anyInside = true
+		}
+		if s == 0 && !mine {
+			j.insideButElsewhere = true
+		}
+		if s != 2 {
+			allOutside = false
+		}
+	}
+	j.expect = "DONT_CARE"
+	switch {
+	case j.respSt == 2 || allOutside:
+		j.expect = "REJECT"
+	case j.respSt == 0 && j.anyInside && !(st.BackMs > 0 && j.movedAcross) && !j.eodForm:
+		j.expect = "ACCEPT"
+	}
+	return j
+}
+
+// mismatch compares what the SP did (accepted == "": refused, else the ID of the assertion returned) with the judgement:
+// "" (agrees), "rejected-inside", "accepted-outside", "unknown-assertion" or "returned-outside".
+func (j winJudge) mismatch(accepted string) string {
+	switch {
+	case j.expect == "ACCEPT" && accepted == "":
+		return "rejected-inside"
+	case j.expect == "REJECT" && accepted != "":
+		return "accepted-outside"
+	}
+	if accepted != "" {
+		// necessary direction on the assertion actually returned
+		s, ok := j.asSt[accepted]
+		if !ok {
+			return "unknown-assertion"
+		}
+		if s == 2 || j.respSt == 2 {
+			return "returned-outside"
+		}
+	}
+	return ""
 }
 
 func worst(a, b int) int {
@@ -404,6 +674,48 @@ func execWindows(t *testing.T, p *Plan) *Result {
 				a.NotBefore = i64(day.AddDate(0, 0, 1).Sub(t0).Milliseconds())
 			}
 		}
+		if st.Sub != nil {
+			// instants off the millisecond lattice are written verbatim with nine fractional digits; an instant that is written as a
+			// given text already has no sub-millisecond part
+			sub := &winSub{NowNs: st.Sub.NowNs, RespNs: st.Sub.RespNs}
+			text := func(msv, ns int64) string {
+				return t0.Add(ms(msv)).Add(time.Duration(ns)).UTC().Format("2006-01-02T15:04:05.999999999Z")
+			}
+			if st.Spec.IssueText != "" {
+				sub.RespNs = 0
+			} else if sub.RespNs != 0 {
+				st.Spec.IssueText = text(st.Spec.IssueMs, sub.RespNs)
+			}
+			for ai := range st.Spec.Assertions {
+				a, fa := &st.Spec.Assertions[ai], st.Sub.as(ai)
+				if a.IssueText != "" {
+					fa.IssueNs = 0
+				} else if fa.IssueNs != 0 {
+					a.IssueText = text(a.IssueMs, fa.IssueNs)
+				}
+				if a.NBText != "" {
+					fa.NBNs = 0
+				} else if fa.NBNs != 0 {
+					a.NBText = text(*a.NotBefore, fa.NBNs)
+				}
+				if a.NOAText != "" {
+					fa.NOANs = 0
+				} else if fa.NOANs != 0 {
+					a.NOAText = text(*a.NotOnOrAfter, fa.NOANs)
+				}
+				cns := make([]int64, len(a.Confs))
+				for ci := range a.Confs {
+					if c := &a.Confs[ci]; c.NOAText == "" && fa.conf(ci) != 0 {
+						cns[ci] = fa.conf(ci)
+						c.NOAText = text(*c.NotOnOrAfter, cns[ci])
+					}
+				}
+				fa.ConfNs = cns
+				sub.As = append(sub.As, fa)
+			}
+			st.Sub = sub
+			res.probe("sub-millisecond-instants")
+		}
 		respEl := BuildResponseEl(&st.Spec, t0)
 		var body []byte
 		if st.Entry == "artifact-http" {
@@ -414,60 +726,24 @@ func execWindows(t *testing.T, p *Plan) *Result {
 			body = elBytes(respEl)
 		}
 		advance(ms(st.DelayMs))
-		now := st.DelayMs + st.BackMs + st.SkewMs // the SP's clock when the response is examined
-		now0 := st.DelayMs + st.SkewMs            // ... and when the call began (differs only when the back-channel takes time)
+		now := st.DelayMs + st.BackMs + st.SkewMs // the SP's clock when the response is examined (whole milliseconds)
 
 		// ---- oracle, from the statement and the spec only
-		respSt := upper(now, st.Spec.IssueMs, k.MaxIssueDelayMs)
-		if strings.HasPrefix(st.Entry, "artifact") {
-			respSt = worst(respSt, upper(now, st.ArtIssue, k.MaxIssueDelayMs))
-		}
-		asSt := map[string]int{}
-		eodForm := false // an instant in the 24:00:00 form: a lexical form the parser need not admit, so acceptance of this message is not demanded
-		for _, a := range st.Spec.Assertions {
-			if a.NBText != "" {
-				eodForm = true
-			}
-		}
-		movedAcross := false // a lower bound that the clock crossed during the call: acceptance is not demanded
-		anyInside, allOutside := false, true
+		j := judgeWindows(&st, k, st.Sub)
+		respSt, expect, anyInside, eodForm, movedAcross := j.respSt, j.expect, j.anyInside, j.eodForm, j.movedAcross
+		elsewhere, insideButElsewhere, lapsedElsewhere := j.elsewhere, j.insideButElsewhere, j.lapsedElsewhere
 		nonFar := 0
 		for _, c := range st.Classes {
 			if !strings.HasSuffix(c, ":far-in") {
 				nonFar++
 			}
 		}
-		for _, a := range st.Spec.Assertions {
-			s := upper(now, a.IssueMs, k.MaxIssueDelayMs)
-			s = worst(s, lower(now, *a.NotBefore, k.MaxClockSkewMs))
-			if lower(now0, *a.NotBefore, k.MaxClockSkewMs) != 0 {
-				movedAcross = true
-			}
-			s = worst(s, upper(now, *a.NotOnOrAfter, k.MaxClockSkewMs))
-			for _, c := range a.Confs {
-				s = worst(s, upper(now, *c.NotOnOrAfter, k.MaxClockSkewMs))
-			}
-			asSt[a.ID] = s
-			if s == 0 {
-				anyInside = true
-			}
-			if s != 2 {
-				allOutside = false
-			}
-		}
-		expect := "DONT_CARE"
-		switch {
-		case respSt == 2 || allOutside:
-			expect = "REJECT"
-		case respSt == 0 && anyInside && !(st.BackMs > 0 && movedAcross) && !eodForm:
-			expect = "ACCEPT"
-		}
 
 		// ---- the real SP
 		var as *saml.Assertion
 		var err error
 		var pan any
-		at(ms(st.SkewMs), func() {
+		at(ms(st.SkewMs)+time.Duration(st.Sub.now()), func() {
 			pan = guard(func() {
 				switch st.Entry {
 				case "xml":
@@ -497,6 +773,28 @@ func execWindows(t *testing.T, p *Plan) *Result {
 		if st.Lattice > 0 {
 			res.Extra["lattice_runs"]++
 			res.Lattice = append(res.Lattice, st.Lattice-1)
+		}
+		if f := st.Spec.TimeForm - zoneFormBase; f >= -14*60 && f <= 14*60 {
+			switch {
+			case f > 12*60 || f < -12*60:
+				res.probe("zone-offset:beyond-12h")
+			case f > 6*60 || f < -6*60:
+				res.probe("zone-offset:6h-12h")
+			default:
+				res.probe("zone-offset:within-6h")
+			}
+			if expect == "ACCEPT" {
+				res.probe("zone-offset-form-inside-all-windows")
+			}
+		}
+		if elsewhere {
+			res.probe("confirmation-for-another-recipient")
+		}
+		if lapsedElsewhere {
+			res.probe("lapsed-confirmation-for-another-recipient")
+			if expect == "REJECT" && nonFar == 1 {
+				res.probe("lapsed-confirmation-for-another-recipient-binding")
+			}
 		}
 		if nonFar > 0 {
 			res.Nontrivial = true
@@ -531,37 +829,42 @@ func execWindows(t *testing.T, p *Plan) *Result {
 			res.logf("panic: %v", pan)
 			return res
 		}
-		switch expect {
-		case "DONT_CARE":
+		if expect == "DONT_CARE" {
 			if eodForm {
 				res.dontcare("end-of-day-lexical-form")
+			} else if respSt == 0 && !anyInside && insideButElsewhere {
+				res.dontcare("confirmation-for-another-recipient")
 			} else if st.BackMs > 0 && movedAcross {
 				res.dontcare("lower-bound-crossed-during-the-call")
 			} else {
 				res.dontcare("boundary-equality")
 			}
-		case "ACCEPT":
-			if as == nil {
-				res.violate(si, "rejected-inside-window", "C02/rejected-inside/"+st.Entry, expect, observed, privErr(err))
-				return res
-			}
-		case "REJECT":
-			if as != nil {
-				res.violate(si, "accepted-outside-window", "C02/accepted-outside/"+bindingOf(st, now, k), expect, observed, "")
-				return res
-			}
 		}
+		accepted := ""
 		if as != nil {
-			// necessary direction on the assertion actually returned
-			s, ok := asSt[as.ID]
-			if !ok {
+			accepted = as.ID
+		}
+		if bad := j.mismatch(accepted); bad != "" {
+			// a verdict that is off ONLY because the library moves every decoded instant to the nearest millisecond (it would agree with
+			// the statement applied to the message so rounded) is the known rounding finding, whatever bound it shows at
+			onlyRounding := st.Sub != nil && judgeWindows(&st, k, st.Sub.rounded()).mismatch(accepted) == ""
+			sig := func(s string) string {
+				if onlyRounding {
+					return s[:strings.LastIndex(s, "/")] + "/sub-millisecond-rounding"
+				}
+				return s
+			}
+			switch bad {
+			case "rejected-inside":
+				res.violate(si, "rejected-inside-window", sig("C02/rejected-inside/"+st.Entry), expect, observed, privErr(err))
+			case "accepted-outside":
+				res.violate(si, "accepted-outside-window", sig("C02/accepted-outside/"+bindingOf(st, now, k)), expect, observed, "")
+			case "unknown-assertion":
 				res.violate(si, "unknown-assertion-returned", "C02/unknown-assertion", "one of the issued assertions", as.ID, "")
-				return res
+			case "returned-outside":
+				res.violate(si, "accepted-outside-window", sig("C02/accepted-outside/"+bindingOf(st, now, k)), "REJECT or another assertion", observed, "returned assertion violates a window")
 			}
-			if s == 2 || respSt == 2 {
-				res.violate(si, "accepted-outside-window", "C02/accepted-outside/"+bindingOf(st, now, k), "REJECT or another assertion", observed, "returned assertion violates a window")
-				return res
-			}
+			return res
 		}
 	}
 	res.SimMillis = time.Since(start).Milliseconds()
@@ -612,28 +915,34 @@ func layoutOf(s *RespSpec) string {
 
 // bindingOf names the first violated bound (for violation signatures).
 func bindingOf(st winStep, now int64, k winKnobs) string {
-	if upper(now, st.Spec.IssueMs, k.MaxIssueDelayMs) == 2 {
+	f := st.Sub
+	if upperNs(now, st.Spec.IssueMs, k.MaxIssueDelayMs, f.now()-f.resp()) == 2 {
 		return "response-issue-instant"
 	}
-	if strings.HasPrefix(st.Entry, "artifact") && upper(now, st.ArtIssue, k.MaxIssueDelayMs) == 2 {
+	if strings.HasPrefix(st.Entry, "artifact") && upperNs(now, st.ArtIssue, k.MaxIssueDelayMs, f.now()) == 2 {
 		return "artifact-issue-instant"
 	}
-	for _, a := range st.Spec.Assertions {
-		if upper(now, a.IssueMs, k.MaxIssueDelayMs) == 2 {
+	for ai, a := range st.Spec.Assertions {
+		fa := f.as(ai)
+		if upperNs(now, a.IssueMs, k.MaxIssueDelayMs, f.now()-fa.IssueNs) == 2 {
 			return "assertion-issue-instant"
 		}
-		if lower(now, *a.NotBefore, k.MaxClockSkewMs) == 2 {
+		if lowerNs(now, *a.NotBefore, k.MaxClockSkewMs, f.now()-fa.NBNs) == 2 {
 			return "conditions-not-before"
 		}
-		if upper(now, *a.NotOnOrAfter, k.MaxClockSkewMs) == 2 {
+		if upperNs(now, *a.NotOnOrAfter, k.MaxClockSkewMs, f.now()-fa.NOANs) == 2 {
 			return "conditions-not-on-or-after"
 		}
 		for i, c := range a.Confs {
-			if upper(now, *c.NotOnOrAfter, k.MaxClockSkewMs) == 2 {
+			if upperNs(now, *c.NotOnOrAfter, k.MaxClockSkewMs, f.now()-fa.conf(i)) == 2 {
+				n := "later-confirmation-not-on-or-after"
 				if i == 0 {
-					return "confirmation-not-on-or-after"
+					n = "confirmation-not-on-or-after"
 				}
-				return "later-confirmation-not-on-or-after"
+				if c.Recipient != spBase+"/saml/acs" {
+					n += "-for-another-recipient"
+				}
+				return n
 			}
 		}
 	}
@@ -650,6 +959,9 @@ func simplifyWindows(p *Plan) []*Plan {
 				c := p.Clone()
 				s2 := decode[winStep](raw)
 				s2.Spec.Assertions = append(append([]AsrtSpec{}, s2.Spec.Assertions[:j]...), s2.Spec.Assertions[j+1:]...)
+				if s2.Sub != nil && j < len(s2.Sub.As) {
+					s2.Sub.As = append(append([]winSubAs{}, s2.Sub.As[:j]...), s2.Sub.As[j+1:]...)
+				}
 				c.Steps[i] = mustJSON(s2)
 				out = append(out, c)
 			}
@@ -661,6 +973,10 @@ func simplifyWindows(p *Plan) []*Plan {
 					s2 := decode[winStep](raw)
 					cf := s2.Spec.Assertions[j].Confs
 					s2.Spec.Assertions[j].Confs = append(append([]ConfSpec{}, cf[:q]...), cf[q+1:]...)
+					if s2.Sub != nil && j < len(s2.Sub.As) && q < len(s2.Sub.As[j].ConfNs) {
+						cn := s2.Sub.As[j].ConfNs
+						s2.Sub.As[j].ConfNs = append(append([]int64{}, cn[:q]...), cn[q+1:]...)
+					}
 					c.Steps[i] = mustJSON(s2)
 					out = append(out, c)
 				}
@@ -672,6 +988,13 @@ func simplifyWindows(p *Plan) []*Plan {
 				c.Steps[i] = mustJSON(s2)
 				out = append(out, c)
 			}
+		}
+		if st.Sub != nil {
+			c := p.Clone()
+			s2 := decode[winStep](raw)
+			s2.Sub = nil
+			c.Steps[i] = mustJSON(s2)
+			out = append(out, c)
 		}
 		if st.Spec.TimeForm != 0 {
 			c := p.Clone()
@@ -704,10 +1027,10 @@ func simplifyWindows(p *Plan) []*Plan {
 func init() {
 	register(&Profile{
 		ID: "C02", Name: "windows", Level: "exploration",
-		Rule: "each run: 1-3 deliveries of a foreign-IdP response (1-2 assertions, 1-3 confirmations, 7 lexical time forms, 3 signing layouts, plaintext/encrypted, xml/post/artifact entry) whose every bound (response/artifact/assertion IssueInstant, NotBefore, NotOnOrAfter, each confirmation) is placed at a drawn position {far-in,+1ms,-1ms,far-out,edge,half-tolerance in/out} relative to SP-now = issue time + network delay + SP clock skew, with MaxIssueDelay/MaxClockSkew drawn per run; non-trivial = at least one bound is not far inside; distinct = distinct abstract event log (entry, form, position classes, expectation, outcome); every other run enumerates the lattice {far-in,+1ms,-1ms,far-out}^6 over the six bounds of a one-assertion two-confirmation response systematically (coverage.lattice_coverage); confirmations carry bearer / holder-of-key / sender-vouches methods; far-out bounds include the verbatim year-1 instant, far-in bounds the customary never-expires instants (year 2400/9999); MaxClockSkew may be negative; artifact responses also arrive through ParseResponse over a back-channel whose round trip takes 0 ms-1 h of simulated time (bounds are judged by the SP clock when the response is examined; acceptance is not demanded when NotBefore was crossed during the call); 15% of runs install a custom ValidateAudienceRestriction",
+		Rule: "each run: 1-3 deliveries of a foreign-IdP response (1-2 assertions, 1-3 confirmations, 7 lexical time forms, 3 signing layouts, plaintext/encrypted, xml/post/artifact entry) whose every bound (response/artifact/assertion IssueInstant, NotBefore, NotOnOrAfter, each confirmation) is placed at a drawn position {far-in,+1ms,-1ms,far-out,edge,half-tolerance in/out} relative to SP-now = issue time + network delay + SP clock skew, with MaxIssueDelay/MaxClockSkew drawn per run; non-trivial = at least one bound is not far inside; distinct = distinct abstract event log (entry, form, position classes, expectation, outcome); every other run enumerates the lattice {far-in,+1ms,-1ms,far-out}^6 over the six bounds of a one-assertion two-confirmation response systematically (coverage.lattice_coverage); confirmations carry bearer / holder-of-key / sender-vouches methods; far-out bounds include the verbatim year-1 instant, far-in bounds the customary never-expires instants (year 2400/9999); MaxClockSkew may be negative; artifact responses also arrive through ParseResponse over a back-channel whose round trip takes 0 ms-1 h of simulated time (bounds are judged by the SP clock when the response is examined; acceptance is not demanded when NotBefore was crossed during the call); 15% of runs install a custom ValidateAudienceRestriction; one message in four writes its instants in a zone drawn from the whole xs:dateTime range -14:00...+14:00; confirmations may be addressed to another relying party (their NotOnOrAfter binds all the same, acceptance is then not demanded); 5% of the runs take the instants and the SP clock off the millisecond lattice (nine fractional digits) with one bound moved onto its boundary",
 		Gen:  genWindows, Exec: execWindows, Simplify: simplifyWindows,
 		RunsQuick: 6000, RunsThorough: 600000,
-		Assumptions: []string{"instants are exact milliseconds (the library rounds to ms)", "exact equality with a bound is a declared don't-care"},
+		Assumptions: []string{"instants and the SP clock are exact milliseconds in 95% of the runs; in the others both carry parts below a millisecond and are judged exactly (a verdict off only because the library rounds decoded instants to the millisecond is reported under .../sub-millisecond-rounding)", "exact equality with a bound is a declared don't-care"},
 		Components: map[string][]string{
 			"real": {"saml.ServiceProvider.ParseXMLResponse/ParseResponse/ParseXMLArtifactResponse", "goxmldsig", "xmlenc (decrypt)", "etree", "xml-roundtrip-validator"},
 			"stub": {"foreign IdP (library schema types + goxmldsig signing)", "network delay / clock skew (bubble clock)"},
